@@ -1,8 +1,12 @@
 """C10 - the exact in-sphere predicate returns the true sign on the integer grid; grid map range."""
 import z3
 
-from mirsym import engine
-from . import insphere
+import json
+
+from mirsym import engine, kanirun
+from mirsym.interp import Unsupported
+from . import insphere, geomrules as GR
+from .C05 import KANI_QUICK, KANI_THOROUGH
 
 LEVEL = 'other'
 EXPLANATION = ('Bounded symbolic checking of the real code: the MIR of in_sphere_test_exact (ibig build) is executed symbolically with '
@@ -29,14 +33,58 @@ def circumsphere_lemma(run):
     run.assume('C10.b: positively oriented means det3(b-a,c-a,d-a) > 0 in the column order of the code; then sign<0 <=> strictly inside, =0 <=> on the sphere')
 
 
+def orientation_of_initial_duals(run, funcs):
+    """C10.e: the eight dual triples of ConvexCell::init are positively oriented in the column order of the predicate:
+    for a generator strictly inside the box, det3(b-a, c-a, d-a) > 0 where b,c,d are the mirror images through the three walls of the dual"""
+    import z3
+    from .cliprules import init_duals_from_mir
+    duals = init_duals_from_mir(funcs)
+    lo = [z3.Real('lo%d' % k) for k in range(3)]
+    hi = [z3.Real('hi%d' % k) for k in range(3)]
+    g = [z3.Real('g%d' % k) for k in range(3)]
+    pre = [lo[k] < g[k] for k in range(3)] + [g[k] < hi[k] for k in range(3)]
+
+    def mirror(plane):
+        ax, upper = plane // 2, plane % 2
+        wall = hi[ax] if upper else lo[ax]
+        return [2 * wall - g[k] if k == ax else g[k] for k in range(3)]
+    conds = []
+    for d in duals:
+        cols = [[m[k] - g[k] for k in range(3)] for m in (mirror(d[0]), mirror(d[1]), mirror(d[2]))]
+        rows = [[cols[c][r] for c in range(3)] for r in range(3)]
+        conds.append(insphere.det_leibniz(rows) > 0)
+    run.prove('C10.e the eight initial vertices (duals read from the MIR of ConvexCell::init) are positively oriented for every generator strictly inside the box',
+              pre, z3.Not(z3.And(conds)), timeout=30, sample={'duals': duals})
+
+
 def check(run):
-    cands, P, code_det = insphere.check_backend(run, 'ibig', 'C10.a', thorough=(run.tier == 'thorough'))
-    insphere.confirm_and_report(run, 'C10', cands, 'C10.a')
+    try:
+        cands, P, code_det = insphere.check_backend(run, 'ibig', 'C10.a', thorough=(run.tier == 'thorough'))
+        insphere.confirm_and_report(run, 'C10', cands, 'C10.a')
+    except Unsupported as e:
+        # the exact path contains an operation outside the big-integer model (e.g. floating point): the encoding cannot be built.
+        # Inconclusive by design - unless the real function already disagrees with the exact reference on the validation samples.
+        bad = insphere.native_vs_reference(run.seed, 3000)
+        if bad:
+            insphere.confirm_and_report(run, 'C10', bad[:3], 'C10.a (encoding not buildable: %s)' % str(e)[:80])
+        else:
+            run.inconclusive.append('C10.a: %s' % e)
     circumsphere_lemma(run)
+    funcs, _ = engine.load_mir('ibig')
+    orientation_of_initial_duals(run, funcs)
+    GR.cuboid(run, funcs, 'C10')
+    GR.right_loc(run, funcs, 'C10')
+    kanirun.run(run, 'C10', [h for h in (KANI_QUICK if run.tier == 'quick' else KANI_THOROUGH) if h['name'].startswith('iloc')], jobs=12)
+    run.bound('grid map, bit-precise (Kani): see kani_harnesses[].bounds; monotonicity: not decided bit-precisely (harness did not finish in 20 min) - over the reals the map is affine with positive slope (cuboid obligation)')
     run.assume('big-integer crate implements Z exactly (its arithmetic is not encoded)')
     run.assume('rustc MIR printer, z3/cvc5')
     return run.finish(LEVEL, EXPLANATION, trusted=['rustc -Zunpretty=mir', 'z3 5.1.0 / 4.8.12, cvc5 1.0.3', 'model table of mirsym (big integers as Z)', 'Kani 0.68 / CBMC 6.11'])
 
 
 def replay(path):
-    return insphere.replay_file(path)
+    d = json.load(open(path))
+    if d['kind'] == 'kani_playback':
+        return kanirun.replay('C10', path)
+    if d['kind'] == 'insphere_exact':
+        return insphere.replay_file(path)
+    return GR.replay(d)
